@@ -8,9 +8,11 @@
 (* exponential backoff with jitter", max_delay "caps the exponential        *)
 (* backoff", jitter_factor 0..1 "up to 100% variation", retry_on_status):   *)
 (*  D1 calculate_delay(0, _) = 0; for attempt a >= 1 the delay is           *)
-(*     min(base * 2^(a-1), max) scaled by the network-condition factor      *)
-(*     (Excellent .5, Good .8, Fair 1, Poor 1.5, VeryPoor 2), within        *)
-(*     +- jitter_factor of that value;                                      *)
+(*     min(base * 2^(a-1), max) scaled by a network-condition factor        *)
+(*     ("network condition adaptation": exactly 1 for Fair, between 1/2     *)
+(*     and 1 for Excellent / Good, between 1 and 2 for Poor / VeryPoor -    *)
+(*     the table itself is the implementation's), within +- jitter_factor   *)
+(*     of that value;                                                       *)
 (*  D2 and it never exceeds max_delay (plus the jitter allowance);          *)
 (*  D3 no panic for any attempt number;                                     *)
 (*  D4 is_retryable: an HTTP status is retried iff it is listed in          *)
@@ -49,8 +51,8 @@
 (* ReqwestHttpClient::get_cdn_content ("get CDN content with automatic      *)
 (* failover"; CdnConfig::servers "are tried in priority order (lower        *)
 (* priority values first)"; http.rs):                                       *)
-(*  H1 servers are contacted in ascending priority (ties: in the order      *)
-(*     given), each at most once, the next one only after the one before    *)
+(*  H1 servers are contacted in ascending priority (equal priorities in any  *)
+(*     order), each at most once, the next one only after the one before    *)
 (*     failed (error status, no answer);                                    *)
 (*  H2 the result is the answer of the first server that succeeds; Err only *)
 (*     after every server failed;                                           *)
@@ -77,22 +79,28 @@ SeqSet(q) == Fv!SetOfSeq(q)
 
 \* ---- D1-D3: delays ---------------------------------------------------------------------------
 JitPct(tok) == CASE tok = "0" -> 0 [] tok = "0.1" -> 10 [] tok = "0.5" -> 50 [] tok = "1" -> 100
-Mults == {<<1, 2>>, <<4, 5>>, <<1, 1>>, <<3, 2>>, <<2, 1>>}
-CondMult(c) == CASE c = "Excellent" -> <<1, 2>> [] c = "Good" -> <<4, 5>> [] c = "Fair" -> <<1, 1>>
-                 [] c = "Poor" -> <<3, 2>> [] c = "VeryPoor" -> <<2, 1>>
+\* the range <<lowest factor, highest factor>> (rationals <<num, den>>) a network condition may apply
+Half == <<1, 2>>   One == <<1, 1>>   Two == <<2, 1>>
+CondRange(c) == CASE c \in {"Excellent", "Good"} -> <<Half, One>> [] c = "Fair" -> <<One, One>>
+                  [] c \in {"Poor", "VeryPoor"} -> <<One, Two>>
+AnyCond == <<Half, Two>>
 \* min(base * 2^(a-1), max), multiplied step by step under the cap (C14's operator; TLC integers are 32 bit)
 Backoff(cfg, a) == Rt!PowCap(cfg.base_ms, 2, a - 1, cfg.max_ms)
-Scaled(cfg, a, m) == (Backoff(cfg, a) * m[1]) \div m[2]
+ScaledLo(cfg, a, f) == (Backoff(cfg, a) * f[1]) \div f[2]
+ScaledHi(cfg, a, f) == Rt!CeilDiv(Backoff(cfg, a) * f[1], f[2])
 JLo(cfg, x) == (x * (100 - JitPct(cfg.jit))) \div 100
 JHi(cfg, x) == Rt!CeilDiv(x * (100 + JitPct(cfg.jit)), 100)
-Capped(cfg, a, m) == Rt!Min2r(Scaled(cfg, a, m), cfg.max_ms)                 \* D2: the cap holds after scaling, too
-Near(cfg, x, d, tol) == d >= JLo(cfg, x) - tol /\ d <= JHi(cfg, x) + tol
-\* the delay d before attempt a+1 (a >= 1), network condition factor one of M
-DelayOK(cfg, a, M, d, tol) == \E m \in M : Near(cfg, Capped(cfg, a, m), d, tol)
+\* d lies between the smallest and the largest admissible delay for factors in fr; capped: D2 applies to the scaled value
+DelayIn(cfg, a, fr, d, tol, capped) ==
+  /\ d >= JLo(cfg, Rt!Min2r(ScaledLo(cfg, a, fr[1]), cfg.max_ms)) - tol
+  /\ d <= JHi(cfg, IF capped THEN Rt!Min2r(ScaledHi(cfg, a, fr[2]), cfg.max_ms) ELSE ScaledHi(cfg, a, fr[2])) + tol
+\* the delay d before attempt a+1 (a >= 1)
+DelayOK(cfg, a, fr, d, tol) == DelayIn(cfg, a, fr, d, tol, TRUE)
 (* FX02f: the network-condition factor (x1.5, x2) is applied AFTER min(.., max_delay), so the wait is the
    scaled capped value and exceeds max_delay. *)
-DelayOverCap(cfg, a, M, d, tol) ==
-  \E m \in M \cap {<<3, 2>>, <<2, 1>>} : Scaled(cfg, a, m) > cfg.max_ms /\ Near(cfg, Scaled(cfg, a, m), d, tol)
+DelayOverCap(cfg, a, fr, d, tol) ==
+  /\ ~DelayOK(cfg, a, fr, d, tol) /\ fr[2] = Two /\ ScaledHi(cfg, a, Two) > cfg.max_ms
+  /\ DelayIn(cfg, a, fr, d, tol, FALSE)
 (* FX02g: 2_u32.pow(attempt - 1) overflows from attempt 33 on (panic with overflow checks, delay 0 without). *)
 PowOverflow(a) == a >= 33
 
@@ -182,8 +190,8 @@ CallsOK(cfg, calls, strictCap) ==
   /\ \A i \in 1..k : calls[i].i = i /\ calls[i].range_ok
   /\ \A i \in 1..(k - 1) : ~IsOkOut(calls[i].o) /\ Retryable(cfg, calls[i].o)      \* R2, R3
   /\ \A i \in 2..k :                                                               \* R6
-       \/ DelayOK(cfg, i - 1, Mults, GapBefore(cfg, calls, i), TimerTol)
-       \/ ~strictCap /\ DelayOverCap(cfg, i - 1, Mults, GapBefore(cfg, calls, i), TimerTol)
+       \/ DelayOK(cfg, i - 1, AnyCond, GapBefore(cfg, calls, i), TimerTol)
+       \/ ~strictCap /\ DelayOverCap(cfg, i - 1, AnyCond, GapBefore(cfg, calls, i), TimerTol)
 ErrName(o) == IF o.kind = "Beyond" THEN "Configuration" ELSE IF o.kind = "Hang" THEN "Timeout" ELSE o.kind
 ResultOK(cfg, calls, res, x, S) ==
   LET k == Len(calls) IN
@@ -208,13 +216,11 @@ RecResync(hosts, ob) == {[down |-> D, tot |-> [h \in hosts |-> ob.srv[h][1]], fl
 \* cfg.servers = <<[h, prio, beh], ..>>; beh: "ok206" honours Range, "ok200" ignores it (whole resource),
 \* "h404" | "h429" | "h500" | "h503" error statuses, "close" no answer.  Resource: ResLen bytes, byte x = x.
 ResLen == 32
-RECURSIVE InsertPrio(_, _)
-InsertPrio(q, r) == IF q = <<>> THEN <<r>>
-                    ELSE IF q[Len(q)].prio <= r.prio THEN Append(q, r)
-                    ELSE Append(InsertPrio(SubSeq(q, 1, Len(q) - 1), r), q[Len(q)])
-RECURSIVE SortPrio(_)
-SortPrio(q) == IF q = <<>> THEN <<>> ELSE InsertPrio(SortPrio(SubSeq(q, 1, Len(q) - 1)), q[Len(q)])   \* stable
-CdnChain(cfg) == SortPrio(cfg.servers)
+\* the orders in which the servers may be tried: ascending priority, servers of equal priority in any order
+CdnChains(cfg) ==
+  LET n == Len(cfg.servers)
+      perms == {f \in [1..n -> 1..n] : \A i, j \in 1..n : i # j => f[i] # f[j]}
+  IN {[i \in 1..n |-> cfg.servers[f[i]]] : f \in {g \in perms : \A i \in 1..(n - 1) : cfg.servers[g[i]].prio <= cfg.servers[g[i + 1]].prio}}
 CdnFails(b) == b \in {"h404", "h429", "h500", "h503", "close"}
 \* the bytes a correct client returns for `range` (<<>>: the whole resource), as a sequence of byte values
 Wanted(range) == IF range = <<>> THEN [j \in 1..ResLen |-> j - 1] ELSE [j \in 1..(range[2] - range[1] + 1) |-> range[1] + j - 1]
@@ -230,11 +236,11 @@ CdnWalk(chain, range, i) ==
           \* a whole-resource answer to a range request: cut it, or count the server as failed;
           \* FX02i: the whole resource is returned as if it were the range
           ELSE {stop(Wanted(range), ""), stop(Whole, "FX02i")} \cup CdnWalk(chain, range, i + 1)
-CdnMatches(cfg, e, w) ==
-  LET chain == CdnChain(cfg) IN
+CdnMatches(chain, e, w) ==
   /\ e.obs.contacted = [j \in 1..w.n |-> chain[j].h]                                \* H1
   /\ e.obs.hdr_ok                                                                   \* H3 (request)
   /\ IF w.ok THEN e.res.kind = "Ok" /\ e.res.body = w.body /\ e.res.len = Len(w.body)   \* H2, H3
      ELSE e.res.kind = "Err"
-CdnExplained(cfg, e, devs) == {w \in CdnWalk(CdnChain(cfg), e.range, 1) : w.dev \in devs /\ CdnMatches(cfg, e, w)}
+CdnExplained(cfg, e, devs) ==
+  UNION {{w \in CdnWalk(chain, e.range, 1) : w.dev \in devs /\ CdnMatches(chain, e, w)} : chain \in CdnChains(cfg)}
 =============================================================================
